@@ -13,7 +13,7 @@ import re
 
 from ..engine import rule
 from ..model import Undecided
-from ..cfg import same, dotted, call_name, is_call, simple_name, unparse, const_value, contains, enclosing
+from ..cfg import same, dotted, call_name, is_call, simple_name, unparse, const_value, contains, enclosing, implied
 from ..flow import Defs, depends
 from ..decide import table, ret_kind
 from ..util import keyword, returns_of, calls_in, inside, order_key, str_variants, HOLE
@@ -520,3 +520,45 @@ def c12i(ctx):
               'coverage False -> (False, not the complete extent); a coverage -> transformed, not complete; None -> grid bbox, complete extent', fn,
               fail='the clean-up task for an empty coverage is not carried on as "nothing" (%s): it runs over the complete extent' % (
                   bad[:1] if bad else 'no `self.coverage is False` case, atoms %s' % tab.atoms))
+
+
+LEVEL_CACHES = [('mapproxy/cache/mbtiles.py', 'MBTilesLevelCache'), ('mapproxy/cache/geopackage.py', 'GeopackageLevelCache')]
+
+
+@rule('C12.j', floor=4)
+def c12j(ctx):
+    """a clean-up for "older than T" only runs on caches that know the age of a tile: the seed configuration refuses `remove_before`
+    for a cache whose `supports_timestamp` is False (and removes everything only when told so).  A cache that says True although its
+    tiles carry no time stamp lets the clean-up run on the placeholder time stamp -1: every tile is "older", fresh ones included.
+    Decided for the per-level caches: the class attribute agrees with the `with_timestamps` constant their level databases are
+    created with"""
+    for rel, cname in LEVEL_CACHES:
+        cls = ctx.repo.cls('%s:%s' % (rel, cname))
+        gl = ctx.fn('%s:%s._get_level' % (rel, cname))
+        vals = set()
+        for x in gl.walk():
+            if not (isinstance(x, ast.Call) and isinstance(x.func, ast.Name)):
+                continue
+            q = ctx.repo.resolve_name(gl.mod, x.func)
+            k = ctx.repo.classes.get(q) if q else None
+            init = k.method('__init__') if k is not None else None
+            if init is None or 'with_timestamps' not in init.params:
+                continue
+            v = keyword(x, 'with_timestamps', init.params.index('with_timestamps') - 1)
+            vals.add(const_value(v, '?') if v is not None else const_value(init.node.args.defaults[init.params.index('with_timestamps') - len(init.params)], '?'))
+        claim = const_value(cls.attr_value('supports_timestamp'), '?')
+        ok = len(vals) == 1 and claim in (True, False) and vals == {claim}
+        ctx.check(ok, '%s:supports_timestamp-agrees' % cname, 'supports_timestamp = %s, level databases are created with with_timestamps=%s' % (claim, sorted(vals, key=str)),
+                  (rel, cls.node.lineno), fail='%s claims supports_timestamp = %s but creates its level databases with with_timestamps=%s: a clean-up '
+                  'by age runs on tiles that have no age' % (cname, claim, sorted(vals, key=str)))
+    for m in ('SeedConfiguration.seed_tasks', 'CleanupConfiguration.cleanup_tasks'):
+        fn = ctx.fn('mapproxy/seed/config.py:' + m)
+        g = fn.cfg
+        tests = [at for s, d, test, pol in g.branch_edges() for at, p in implied(test, pol) if at.text.endswith('cache.supports_timestamp')]
+        ctx.check(bool(tests), '%s:asks-the-cache' % m, 'the task set-up looks at cache.supports_timestamp', fn,
+                  fail='%s no longer looks at supports_timestamp of the cache' % m)
+    cl = ctx.fn('mapproxy/seed/config.py:CleanupConfiguration.cleanup_tasks')
+    g = cl.cfg
+    raises = g.find_stmts(lambda s: isinstance(s, ast.Raise) and 'remove_before' in unparse(s))
+    ok = bool(raises) and all(g.guarded(n, lambda at: at.text.endswith('cache.supports_timestamp'), False) for n in raises)
+    ctx.check(ok, 'CleanupConfiguration.cleanup_tasks:refuses-age-without-timestamps', 'remove_before is refused for a cache without time stamps', cl)
